@@ -312,4 +312,11 @@ func init() {
 	Ops.G16KInfinity = g16KInfinity
 	Ops.G16NbCommitments = func(vk any) int { return len(vk.(*g16.VerifyingKey).PublicAndCommitmentCommitted) }
 	Ops.G16ProofEqual = func(a, b any) bool { return g16equal(a.(*g16.Proof), b.(*g16.Proof)) }
+	// equality of everything but CommitmentPok (a component the verification
+	// equations of a key without commitments never read)
+	Ops.Ext["G16ProofEqualButPok"] = func(a, b any) bool {
+		x := g16clone(a.(*g16.Proof))
+		x.CommitmentPok = b.(*g16.Proof).CommitmentPok
+		return g16equal(x, b.(*g16.Proof))
+	}
 }
